@@ -1,6 +1,7 @@
 /* Kernel ops (C05): field, scalar, group law, scalar multiplication, hashing - internal functions
  * reached because the harness is one translation unit.  Model side: coq/Model/ApiKernel.v. */
 
+#ifndef EXHAUSTIVE_TEST_ORDER
 /* field element with value v (32 bytes, reduced mod p) and raised magnitude:
  * adds k elements of value 0 and magnitude 3 (w + (-w)) whose limbs are not normalised */
 static void fe_make(secp256k1_fe *r, const unsigned char *v32, long long raise, const unsigned char *noise32) {
@@ -207,3 +208,6 @@ static const op_entry ops_kernel[] = {
     OP(ecmult_multi), OP(wnaf), OP(sha256_chunks), OP(hmac_chunks), OP(rfc6979_multi), OP(sha256_midstate),
     {NULL, NULL}
 };
+#else
+static const op_entry ops_kernel[] = { {NULL, NULL} };
+#endif
